@@ -812,8 +812,8 @@ func VpHBuilderMeta() {
 		}
 	}
 	vpAssert(b.maxVersion == maxv, "C18,C11,C07:meta.builder.maxVersion")
-	vpAssert(len(b.keyHashes) == n, "C18:meta.builder.key-count")
-	vpAssert(hashes, "C18:meta.builder.hash-of-user-key")
+	vpAssert(len(b.keyHashes) == n, "C18,C19:meta.builder.key-count")
+	vpAssert(hashes, "C18,C19:meta.builder.hash-of-user-key")
 	first := 0
 	baseOK := true
 	total := 0
